@@ -52,6 +52,13 @@ class SymGen:
     def resolve_alias(self, ann: ast.expr, module: Module) -> Tuple[ast.expr, Module]:
         """Follow module-level type aliases ``X = Union[...]``."""
         for _ in range(10):
+            if isinstance(ann, ast.Constant) and isinstance(ann.value, str):
+                # a forward reference written as a string
+                try:
+                    ann = ast.parse(ann.value, mode="eval").body
+                except SyntaxError:
+                    break
+                continue
             if isinstance(ann, ast.Name):
                 r = module.lookup(ann.id)
                 if r is not None and r[0] == "assign":
@@ -210,7 +217,7 @@ class SymGen:
                 alts_v[p] = self.mk_sym(ast.Name(id=p), module, f"{name}.{p}", args)
             self.path.add_fact(z3.And(kind >= 0, kind < len(order)))
             return VPrimUnion(kind, order, alts_v)
-        raise Unsupported("union mixing classes and primitives")
+        return VOpaque(f"mixed-union {name}")  # unusable value: any use of it is reported as outside the subset
 
     def assume_tag(self, obj: SymObj) -> None:
         ids = []
